@@ -100,6 +100,9 @@ func storeFiles(proj string) (logPath string, log []byte, listing string) {
 func (w *World) Observe(extraIDs []string, light bool, dirty map[string]bool) *Obs {
 	o := &Obs{Items: map[string]*ObsItem{}}
 	o.LogPath, o.LogBytes, o.DirList = storeFiles(w.Proj)
+	if _, err := os.Stat(filepath.Join(w.Proj, ".ergo")); err != nil {
+		return o // no store yet: nothing to observe
+	}
 	get := func(id string) *ObsItem {
 		it := o.Items[id]
 		if it == nil {
